@@ -169,6 +169,9 @@ class CaseTag(Tag):
             alternative_token = stream.current()
             assert isinstance(alternative_token, TagToken)
 
+            # The first `when` is not reached via `parse_block`, so the carry is
+            # still that of the `case` tag.
+            stream.trim_carry = alternative_token.wc[-1]
             expressions = self._parse_when_expression(stream.into_inner())
             alternative_block_token = stream.current()
             alternative_block = parse_block(stream, self.end_block)
@@ -183,6 +186,8 @@ class CaseTag(Tag):
 
         if stream.is_tag("else"):
             alternative_token = stream.next()
+            assert isinstance(alternative_token, TagToken)
+            stream.trim_carry = alternative_token.wc[-1]
             alternative_block = parse_block(stream, self.end_block)
             default = BlockNode(alternative_token, alternative_block)
 
